@@ -1,0 +1,20 @@
+//go:build verif
+
+package evaluator
+
+import (
+	"github.com/linkedin/Burrow/core/protocol"
+)
+
+// Verification hooks (build tag "verif" only): thin exported wrappers around unexported functions so
+// that the out-of-tree verification harness can call the real code in-process.
+
+// VerifCalculatePartitionStatus calls calculatePartitionStatus.
+func VerifCalculatePartitionStatus(offsets []*protocol.ConsumerOffset, brokerOffsets []int64, currentLag uint64, timeNow int64, allowedLag uint64) protocol.StatusConstant {
+	return calculatePartitionStatus(offsets, brokerOffsets, currentLag, timeNow, allowedLag)
+}
+
+// VerifEvaluatePartitionStatus calls evaluatePartitionStatus.
+func VerifEvaluatePartitionStatus(partition *protocol.ConsumerPartition, minimumComplete float32, allowedLag uint64) *protocol.PartitionStatus {
+	return evaluatePartitionStatus(partition, minimumComplete, allowedLag)
+}
